@@ -11,6 +11,7 @@ fn new(number: TypedReprRef<'_>, radix: Digit) -> PreparedLarge
         word_digits(ret.top_chunk.top_group) >= 1,
         word_digits(ret.top_chunk.top_group) > 1 ==> ret.top_chunk.top_group.digits@[ret.top_chunk.top_group.start_index as int] != 0,
         ret.big_chunks@.len() > 0 ==> medium_value(ret.top_chunk) >= 1,
+        number.v() >= 1 ==> ret.top_chunk.top_group.digits@[ret.top_chunk.top_group.start_index as int] != 0,
 @*/
 {
         debug_assert!(radix::is_radix_valid(radix) && !radix.is_power_of_two());
@@ -43,6 +44,13 @@ fn new(number: TypedReprRef<'_>, radix: Digit) -> PreparedLarge
             assert forall|t: TypedReprRef| #[trigger] t.wf() && t.v() < pw(CHUNK_LEN as int) implies t.chunk_wf() by { lemma_fl_typed_chunk_wf(t); }
         } @*/
         if chunk_power.as_typed() > number {
+            /*@ proof {
+                // (the lead-digit clause of this exit: the structure is the medium number itself)
+                assert forall|m: PreparedMedium| #[trigger] medium_inv(m) && medium_value(m) >= 1 && word_digits(m.top_group) >= 1
+                    && (word_digits(m.top_group) > 1 ==> m.top_group.digits@[m.top_group.start_index as int] != 0)
+                    && (m.num_low_groups > 0 ==> m.top_group.digits@[m.top_group.start_index as int] != 0)
+                    implies m.top_group.digits@[m.top_group.start_index as int] != 0 by { lemma_fl_medium_lead(m); }
+            } @*/
             return PreparedLarge {
                 top_chunk: PreparedMedium::new(number, radix),
                 radix_powers,
@@ -162,4 +170,5 @@ fn new(number: TypedReprRef<'_>, radix: Digit) -> PreparedLarge
             big_chunks,
             radix,
         }
+        /*@ proof { lemma_fl_medium_lead(ret.top_chunk); } @*/
     }
